@@ -301,6 +301,7 @@ type Obligation struct {
 	Pos      string
 	Src      string // source text of the asserted clause / expression
 	// results
+	Hint    string // strategy recorded in obligations.lock (solver name or case-split)
 	Status  string // unsat (discharged), sat, unknown, timeout, error
 	Solver  string
 	TimeS   float64
@@ -333,6 +334,10 @@ type FuncGen struct {
 	declSeen  map[string]bool
 	curAlloc0 string
 	maxTrace  int
+	orParts   map[string][]string // merged path condition -> its alternatives
+	andParent map[string]string   // refined path condition -> the one it refines
+	noFacts   int                 // >0: terms mention bound variables, no typing facts may be emitted
+	axiomHeap map[string]string   // non-nil while an axiom is evaluated: heap key -> array sort (arrays are bound variables)
 }
 
 type unboundErr struct{ msg string }
@@ -388,7 +393,7 @@ func (g *FuncGen) fact(phi string) {
 
 // typeFacts records what the Go type guarantees about a term.
 func (g *FuncGen) typeFacts(st *State, t string, ty types.Type) {
-	if ty == nil {
+	if ty == nil || g.axiomHeap != nil || g.noFacts > 0 {
 		return
 	}
 	s := sortOf(ty)
@@ -416,6 +421,10 @@ func (g *FuncGen) freshVal(st *State, prefix string, ty types.Type) Val {
 }
 
 func (g *FuncGen) heapGet(st *State, key, elemSort string) string {
+	if g.axiomHeap != nil {
+		g.axiomHeap[key] = "(Array Int " + elemSort + ")"
+		return "QH_" + sanitize(key)
+	}
 	if h, ok := st.heap[key]; ok {
 		return h
 	}
@@ -447,6 +456,10 @@ func (g *FuncGen) newPC(st *State, cond string) *State {
 		g.emit(fmt.Sprintf("(assert (= %s (and %s %s)))", name, st.pc, cond))
 	}
 	n.pc = name
+	if g.andParent == nil {
+		g.andParent = map[string]string{}
+	}
+	g.andParent[name] = st.pc
 	return n
 }
 
@@ -472,6 +485,10 @@ func (g *FuncGen) merge(states []*State) *State {
 	pcn := g.fresh("pc", "Bool")
 	g.emit(fmt.Sprintf("(assert (= %s (or %s)))", pcn, strings.Join(pcs, " ")))
 	res.pc = pcn
+	if g.orParts == nil {
+		g.orParts = map[string][]string{}
+	}
+	g.orParts[pcn] = pcs
 	// variables present in all states
 	var objs []types.Object
 	for o := range live[0].vars {
@@ -671,10 +688,40 @@ func (g *FuncGen) heapWF(key, arr, alloc string) {
 
 // seqWF: elements of a sequence of references are nil or allocated.
 func (g *FuncGen) seqWF(st *State, t string, ty types.Type) {
-	if ty == nil || st == nil {
+	if ty == nil || st == nil || g.axiomHeap != nil || g.noFacts > 0 {
 		return
 	}
 	if sortOf(ty) == "(Sq Int)" && isRefType(elemType(ty)) {
 		g.assume(st, fmt.Sprintf("(forall ((k Int)) (! (=> (and (<= 0 k) (< k (slen %s))) (or (= (select (selems %s) k) 0) (select %s (select (selems %s) k)))) :pattern ((select (selems %s) k))))", t, t, st.heap["$alloc"], t, t))
 	}
+}
+
+// pcCases expands a path condition into the alternatives it was merged from (each a conjunction of named
+// conditions). Used to discharge an obligation by case analysis when the solver does not split on its own.
+func (g *FuncGen) pcCases(pc string, limit int) [][]string {
+	if pc == "true" {
+		return [][]string{{}}
+	}
+	if parts, ok := g.orParts[pc]; ok {
+		var out [][]string
+		for _, p := range parts {
+			out = append(out, g.pcCases(p, limit)...)
+			if len(out) > limit {
+				return [][]string{{pc}}
+			}
+		}
+		return out
+	}
+	if parent, ok := g.andParent[pc]; ok {
+		sub := g.pcCases(parent, limit)
+		if len(sub) == 1 && len(sub[0]) <= 1 {
+			return [][]string{{pc}}
+		}
+		var out [][]string
+		for _, s := range sub {
+			out = append(out, append(append([]string{}, s...), pc))
+		}
+		return out
+	}
+	return [][]string{{pc}}
 }
